@@ -26,3 +26,4 @@ def run(ctx, R):
     aeshw.rule_lanes(ctx, R)
     aeshw.rule_hw_wrap(ctx, R)
     aeshw.rule_cfg_cover(ctx, R)
+    aeshw.rule_rvv_vlen(ctx, R)
